@@ -129,7 +129,7 @@ ADDENDA = {
          "Also: narrow chunk intervals within hours of i64::MAX / i64::MIN on both backends (register, look up, delete) against the interval model.",
          "InMemory store trusted; the extreme-timestamp cases run under 3 GiB address space / 90 s CPU, exceeding either is the verdict 'resource exhaustion'."),
  "C09": ("0-1 storage faults (before / after effect) and contention bursts in the scenario plan",
-         "Also: scenarios with a failed / lost-response request or a burst of lost catalog races; the safety rules are judged in every history, 'persisted deletions are carried out after a restart' only in fault-free ones; a never-referenced file may be deleted once the grace period has passed since its upload. Settings include 'keep for ever' retention (200000 days, u32::MAX) and 'never collect' grace periods (2^50 s, u64::MAX s). Pin-model lane: the real ChunkPinRegistry under overlapping queries and delete claims against reference counts (a pin may not vanish while its guard is alive).", None),
+         "Also: scenarios with a failed / lost-response request or a burst of lost catalog races; the safety rules are judged in every history, 'persisted deletions are carried out after a restart' only in fault-free ones; a never-referenced file may be deleted once the grace period has passed since its upload. Settings include 'keep for ever' retention (200000 days, u32::MAX) and 'never collect' grace periods (2^50 s, u64::MAX s). Pin-model lane: the real ChunkPinRegistry under overlapping queries and delete claims against reference counts (a pin may not vanish while its guard is alive). One-day-retention scenarios carry a fault aimed at one of the compactor's first four catalog writes every other time (a quarter elsewhere): a quick run sees about 200 retention deletes that were reported as failed (counter retention_deletes_reported_failed).", None),
  "C10": ("one failed read of the query node in a third of the simulated cases", "Under a failed read an error may be a query's answer, another query's chunk set may not.", None),
  "C11": ("18 interfaces: also the POST forms of the Prometheus endpoints, query_range, labels, label values (hostile label name in the path), series POST and raw SQL over a loopback WebSocket", "Hostile text is also placed in grouping lists and label names; inner queries and SET statements that never mention the metrics table (catalog lookups, constants).", None),
  "C12": ("", "SQL lane also spells predicates as x NOT BETWEEN a AND b, x NOT IN (..), !=, literal on the left, one-element IN; statements reading the table twice (UNION ALL, joined CTEs) and derived tables re-using a stored column's name; BETWEEN / IN operands of mixed numeric literal types, chunks holding only integers beyond 2^53 with near-tie predicates.", None),
